@@ -273,12 +273,13 @@ def check_loops(case, rec):
 def topo_cases(draw, tier):
     from vlib import gentopo
     r = draw(gentopo.recipes(kinds=['line', 'rect', 'tri', 'mixed', 'multipatch'], maxops=2, ops=('refine', 'refined_by', 'trim'), maxn=3))
-    return dict(mesh=r, nprocs=draw(st.integers(2, 5)), what=draw(st.sampled_from(['integrate', 'integrate', 'eval', 'locate', 'elementwise'])), sched=[draw(st.sampled_from([0, 0, 1, 2])) for _ in range(5)],
-                degree=draw(st.integers(1, 3)), sel=[draw(st.integers(0, 100)) for _ in range(6)], parent_delay=draw(st.sampled_from([0, 100, 300])))
+    return dict(mesh=r, nprocs=draw(st.integers(2, 5)), what=draw(st.sampled_from(['integrate', 'integrate', 'eval', 'locate', 'locate', 'elementwise'])), sched=[draw(st.sampled_from([0, 0, 1, 2])) for _ in range(5)],
+                degree=draw(st.integers(1, 3)), sel=[draw(st.integers(0, 100)) for _ in range(6)], parent_delay=draw(st.sampled_from([0, 100, 300])),
+                missing=[draw(st.integers(0, 5)) for _ in range(draw(st.sampled_from([0, 0, 1, 1, 2])))], skip_missing=draw(st.booleans()))
 
 
 def check_topo(case, rec):
-    from nutils import function, parallel
+    from nutils import function, parallel, topology
     from vlib import gentopo
     with warnings.catch_warnings():
         warnings.simplefilter('ignore')
@@ -299,7 +300,13 @@ def check_topo(case, rec):
             smp = topo.sample('gauss', 1)
             X = numpy.asarray(smp.eval(geom))
             sel = sorted({s % len(X) for s in case['sel']})
-            loc = topo.locate(geom, X[sel], tol=1e-10, eps=1e-12)
+            targets = X[sel].copy()
+            for m in case.get('missing', []):
+                targets[m % len(targets)] += 1e3      # a target far outside the mesh: refused with LocateError, or left out with skip_missing
+            try:
+                loc = topo.locate(geom, targets, tol=1e-10, eps=1e-12, skip_missing=case.get('skip_missing', False))
+            except topology.LocateError:
+                return [numpy.array([-12345.])]      # the documented refusal is an outcome like any other: it must be the same with and without workers
             return [numpy.asarray(loc.eval(geom))]
         serial = run()
         with Perturb(case['sched'], None, 0, case.get('parent_delay', 0)) as pt:
@@ -321,6 +328,7 @@ def check_topo(case, rec):
         pids = {p for p, c in zip(numpy.frombuffer(pt.pids, dtype=numpy.int32), claims) if c}
         rec.nontrivial = len(pids) >= 2
         rec.label('what:' + what, 'mesh:' + case['mesh']['kind'])
+        if what == 'locate' and case.get('missing'): rec.label('locate-missing-target:skip=%s' % case.get('skip_missing', False))
         if len(pids) >= 2: rec.label('multi-process-claims')
 
 
